@@ -3,7 +3,7 @@
    Model: Model/C14_finder.v (finder.py find_package / iter_submodules / submodules / .pth extension, loader.py submodule
    attachment, in static mode) and the authority (CPython's FileFinder/PathFinder, pkgutil, site). *)
 From Coq Require Import List ZArith String Ascii Bool Arith Sorting.Sorted.
-From Verif Require Import Lib.Sexp Model.C14_finder Proofs.C14_finder Proofs.C14_order Proofs.C14_import Proofs.C14_pth Proofs.C14_ns Proofs.C14_bypath Proofs.C14_nsload Proofs.C14_nsinv Proofs.C14_nsorder.
+From Verif Require Import Lib.Sexp Model.C14_finder Proofs.C14_finder Proofs.C14_order Proofs.C14_import Proofs.C14_pth Proofs.C14_ns Proofs.C14_bypath Proofs.C14_nsload Proofs.C14_nsinv Proofs.C14_nsorder Proofs.C14_state.
 Import ListNotations.
 Open Scope string_scope. Open Scope list_scope.
 
@@ -204,3 +204,23 @@ Theorem C14_by_init_path_eq_by_name :
   load_by_path U sps (i, [name; fn]) = BPLoaded name (load false U sps name).
 Proof. exact by_init_path_eq_by_name. Qed.
 Print Assumptions C14_by_init_path_eq_by_name.
+
+(* Histories.  A process with several GriffeLoaders (each with its finder: search paths, memo of directory listings,
+   collection of loaded packages -- the mutable fields the code has, by the census regenerated from the source) serves
+   any sequence of requests: create a loader, load by name, load by path.  Every answer of every history is the answer
+   of the stateless reference [ref_answer], which depends only on the search paths the addressed loader was created
+   with and on the requests BY PATH addressed to that same loader (a path below a directory that is not searched adds
+   that directory, by design): no memo, no other loader, no earlier request by name matters. *)
+Theorem C14_history_independent :
+  forall U rs, snd (run_requests U [] rs) = ref_answers U [] rs.
+Proof. exact history_independent. Qed.
+Print Assumptions C14_history_independent.
+
+(* In particular: a loader created with search paths sps that has since served only requests by name answers a request
+   by name exactly like a fresh process, whatever the other loaders of the process were asked. *)
+Theorem C14_request_by_name_is_fresh :
+  forall U hist1 hist2 id sps name,
+  no_path_for id hist2 = true -> no_new_for id hist2 = true ->
+  ref_answer U (ref_paths U (hist1 ++ RNew id sps :: hist2) id None) (RName id name) = ALoaded (load false U sps name).
+Proof. exact fresh_after_names_only. Qed.
+Print Assumptions C14_request_by_name_is_fresh.
